@@ -636,6 +636,8 @@ def _spec_models(ctx, quick):
     import concurrent.futures
 
     jobs = [("mc/MC_BuildIndep_quick.cfg" if quick else "mc/MC_BuildIndep.cfg", None, "BuildFree holds for Next")] + HAZARDS
+    if not quick:
+        jobs.insert(1, ("mc/MC_BuildIndep_three.cfg", None, "BuildFree holds for Next (three-copy structure)"))
 
     def one(j):
         cfg, expect, what = j
